@@ -351,4 +351,41 @@ theorem bits_pack : ∀ (bs : List Bool), bs.length % 8 = 0 → bits (pack bs) =
     | [_, _, _, _, _, _, _], _, h => simp at h
     | _ :: _ :: _ :: _ :: _ :: _ :: _ :: _ :: _, hne, _ => exact absurd rfl (hne _ _ _ _ _ _ _ _ _)
 
+/-! ### byte strings -/
+
+/-- every element is a byte -/
+def Bytes (bs : List Nat) : Prop := ∀ b ∈ bs, b < 256
+
+instance (bs : List Nat) : Decidable (Bytes bs) := by unfold Bytes; infer_instance
+
+theorem pack_length (bs : List Bool) : (pack bs).length = bs.length / 8 := by
+  fun_induction pack bs with
+  | case1 b7 b6 b5 b4 b3 b2 b1 b0 rest ih => simp [ih]; omega
+  | case2 bs hne =>
+    match bs, hne with
+    | [], _ => simp
+    | [_], _ => simp
+    | [_, _], _ => simp
+    | [_, _, _], _ => simp
+    | [_, _, _, _], _ => simp
+    | [_, _, _, _, _], _ => simp
+    | [_, _, _, _, _, _], _ => simp
+    | [_, _, _, _, _, _, _], _ => simp
+    | _ :: _ :: _ :: _ :: _ :: _ :: _ :: _ :: _, hne => exact absurd rfl (hne _ _ _ _ _ _ _ _ _)
+
+theorem valBE8_lt (b7 b6 b5 b4 b3 b2 b1 b0 : Bool) : valBE [b7, b6, b5, b4, b3, b2, b1, b0] < 256 :=
+  by
+  have := valBE_lt [b7, b6, b5, b4, b3, b2, b1, b0]
+  simpa using this
+
+theorem pack_bytes (bs : List Bool) : Bytes (pack bs) := by
+  fun_induction pack bs with
+  | case1 b7 b6 b5 b4 b3 b2 b1 b0 rest ih =>
+    intro x hx
+    simp only [List.mem_cons] at hx
+    rcases hx with rfl | hx
+    · exact valBE8_lt ..
+    · exact ih x hx
+  | case2 bs hne => intro x hx; simp at hx
+
 end Rs1090.Proofs.Crc
